@@ -127,7 +127,7 @@ func exceptional(t *engine.T, ds, rs []named) {
 		rr := big.NewInt(r)
 		xb := avf(pc.G(rr).X)
 		dbl := new(big.Int).Mul(xb, rr)
-		dbl.Mod(dbl, n) // P = [x̄ r]G = [x̄]R  -> P + [x̄]R is a doubling
+		dbl.Mod(dbl, n)                 // P = [x̄ r]G = [x̄]R  -> P + [x̄]R is a doubling
 		inf := new(big.Int).Sub(n, dbl) // P = -[x̄]R -> sum is infinity; also t = d + x̄ r = 0 for the owner of (d, r)
 		for _, kind := range []struct {
 			name string
@@ -337,7 +337,9 @@ func rejectStatic(t *engine.T, tp tuple) {
 	}
 	for _, iv := range invalidPoints(s0.PB) {
 		iv := iv
-		bad := func() *ecdsa.PublicKey { return &ecdsa.PublicKey{Curve: curve, X: new(big.Int).Set(iv.x), Y: new(big.Int).Set(iv.y)} }
+		bad := func() *ecdsa.PublicKey {
+			return &ecdsa.PublicKey{Curve: curve, X: new(big.Int).Set(iv.x), Y: new(big.Int).Set(iv.y)}
+		}
 		// as initiator: peer static key invalid
 		t.Guard("kx-reject/static-peer-key", func() {
 			t.Eval(1)
